@@ -164,10 +164,59 @@ def fill_vs_flatten(ctx):
         C08.eval_scenes(ctx, A2, meta, what="origfill")
 
 
+def hit_test_agreement(ctx):
+    """"hit-testing the flattened path agrees with the original path up to that deviation": Path::contains_point on a curved
+    path and on Path::flatten of it, for points aimed at the bulges of the curves and farther from the exact outline than
+    the tolerance"""
+    from .. import build
+    from . import C17
+    rng = ctx.rng
+    n = 600 if ctx.tier == "quick" else 8000
+    tol = 0.1
+    paths, queries = [], []
+    for i in range(n):
+        P = lambda: pc.gridpt(rng)
+        if rng.random() < 0.5:
+            cv = ("Q %s %s" % (scene.fpt(*P()), scene.fpt(*P()))) if rng.random() < 0.4 else ("C %s %s %s K 0" % (scene.fpt(*P()), scene.fpt(*P()), scene.fpt(*P())))
+            ops = ["M " + scene.fpt(*P()), cv] + ["L " + scene.fpt(*P()) for _ in range(rng.randrange(0, 2))] + ["Z"]
+        else:
+            ops = pc.mixed_ops(rng)
+        ce = C17.curve_extremes(ops)
+        if not ce:
+            continue
+        (sx, sy), (mx, my) = rng.choice(ce)
+        k = rng.choice([0.05, 0.1, 0.2, 0.3, -0.05])
+        paths.append(scene.path_tokens(ops, rng.randrange(2)))
+        queries.append((sx + (mx - sx) * k, sy + (my - sy) * k))
+    fl, _ = build.run_sharded(build.RQV, ["pflatten %d %d %s" % (i, FB(tol), p) for i, p in enumerate(paths)])
+    qa, qb, keep = [], [], []
+    for i, (p, (x, y), f) in enumerate(zip(paths, queries, fl)):
+        t = f.split()
+        if len(t) < 5 or t[1] != "ok":
+            continue
+        qa.append("pcontains %d %d %d %d %s" % (i, FB(tol), FB(x), FB(y), p))
+        qb.append("pcontains %d %d %d %d %s" % (i, FB(tol), FB(x), FB(y), " ".join(t[2:])))
+        keep.append(i)
+    ra, _ = build.run_sharded(build.RQV, qa)
+    rb, _ = build.run_sharded(build.RQV, qb)
+    ctx.cov["hit_test_pairs"] = len(qa)
+    for a, b, la, lb in zip(ra, rb, qa, qb):
+        ta, tb = a.split(), b.split()
+        if len(ta) < 3 or len(tb) < 3 or ta[1] != "ok" or tb[1] != "ok" or ta[2] == tb[2]:
+            continue
+        ind = C17.independent(la)
+        if ind is not None and ind[1] > tol + 0.05:
+            ctx.violation("hit-%s" % la.split()[1], la + "\n" + lb,
+                          "contains_point says %s for the path and %s for its flattening at a point %.3f from the exact outline (tolerance %g)" % (ta[2], tb[2], ind[1], tol))
+            return
+
+
 def run(ctx):
     from .. import core
     if core.prepare(ctx):
         fill_vs_flatten(ctx)
+        if not ctx.violations:
+            hit_test_agreement(ctx)
     return _path.run_property(ctx, make_lines, RULE, oracle, ASSUME, nontrivial, 5000, 100000,
                               "PathOps.flatten vs Path::flatten")
 
